@@ -1867,7 +1867,7 @@ pub open spec fn chmod_step(s: St, link: bool, dir: bool, file: bool, mode: u32,
 pub open spec fn chmod_pre_step(s: St, link: bool, dir: bool, file: bool, mode: u32, p: PathV, o: ChmodOpts) -> Option<St> {
     match spec_mode(link, dir, file, mode, o.dirs, o.sym@) {
         None => None,
-        Some(v) => Some(if (!link || o.follow) && dir && !revoking(mode, v) && mode != v { with_mode(s, p, v) } else { s }),
+        Some(v) => Some(if (!link || o.follow) && dir && v != 0 && !revoking(mode, v) && mode != v { with_mode(s, p, v) } else { s }),      // 0 = no directory mode requested: nothing to do
     }
 }
 
